@@ -1,5 +1,7 @@
 import GeosModel.Proofs.Conc.InterleaveLemmas
+import GeosModel.Proofs.Conc.IndexedLocate
 import GeosModel.Generated.Globals
+import GeosModel.Generated.SharedObjects
 /-!
 # C13 — reentrant API: threads with their own contexts and objects do not interfere
 
@@ -27,6 +29,18 @@ statement**, each with the reason why it is tolerated.  A new writable global, a
 static, a new `mutable` member, or a cell whose type stops being atomic/const makes this theorem (a
 `decide`) fail.  The exceptions of class `raceCandidate` are real unsynchronised accesses on the
 unchanged tree: findings, see `raceCandidates_exact`.
+
+**(3) A lazily indexed object built before sharing** — the point locator of a prepared polygon
+(`Model/Conc/IndexedLocate.lean`, `Proofs/Conc/IndexedLocate.lean`): `shared_built_locator_schedule_independent`
+(any number of threads asking any points: no race, every answer is `locate rings q`),
+`shared_built_locator_report_independent` (the answer does not depend on what order / which superset of the
+stabbed segments the interval index reports), `shared_built_locator_answers_evenOdd`.  Stream `sharedlocate`
+compares the concurrent implementation with this model.
+
+**(4) The members of objects shared after being built** (`Generated/SharedObjects.lean`, regenerated on every
+run by `translate/shared_objects_inventory.py`): `shared_objects_written_only_while_built` — every data member
+of the classes inside a prepared geometry is safe by type, or is written only by the build-phase functions
+**named in the theorem statement**; `sharedObject_knownRaces_exact` names the members that are the known finding.
 
 Limits: SC only (no weak memory); the link "an API call touches only (a) memory private to its
 thread/context, (b) shared immutable geometries, (c) inventory cells" is the property's premise plus
@@ -121,6 +135,57 @@ example : (exec (St.init (fun _ => 0) (fun t => if t = 0 then [.write 7 1] else 
     sequential order of the two calls produces -/
 example : (exec (St.init (fun _ => 0) (fun t => if t = 0 then [.write 1 1, .write 2 1] else if t = 1 then [.read 1, .read 2] else []))
     [0, 1, 1, 0]).map (·.out 1) = some [1, 0] := rfl
+
+/-! ## (3) a lazily indexed object built before sharing: the point locator of a prepared polygon
+
+`Model/Conc/IndexedLocate.lean` models `IndexedPointInAreaLocator::locate` as it is in the source: a local
+`RayCrossingCounter` fed with the segments the (already built) interval index reports.  `locate_any_report`: the answer
+does not depend on the report order nor on extra reported segments; `locate_eq_evenOdd`: it is the even–odd rule.  Hence a
+call touches shared memory only by *reading* the index, and: -/
+open GeosModel.Kernel in
+/-- **a locator built before sharing may be asked by any number of threads**: whatever points the threads ask, in every
+schedule there is no data race and every thread that finishes has received, for each of its calls, exactly
+`locate rings q` — the answer of the same call made alone (`mem0 idx` stands for the index it read). -/
+theorem shared_built_locator_schedule_independent (idx : CellId) (rings : List (List Pt)) (queries : Tid → List Pt)
+    (mem0 : CellId → Val) :
+    ¬ dataRace (tagAtomic (fun _ => Tag.immutableAfterInit)) mem0 (fun t => Locate.locateThread idx rings (queries t)) ∧
+    ∀ sched s, exec (St.init mem0 (fun t => Locate.locateThread idx rings (queries t))) sched = some s →
+      ∀ t, s.rest t = [] → s.out t = (queries t).flatMap (fun q => [mem0 idx, Locate.locCode (Locate.locate rings q)]) := by
+  have h := reentrant_threads_do_not_interfere (fun _ => Tag.immutableAfterInit) mem0
+    (fun t => Locate.locateThread idx rings (queries t))
+    (fun t => Locate.okFrom_locateThread _ idx rfl t rings (queries t) [])
+    (fun t t' c _ _ _ hw => Locate.locateThread_no_write idx rings (queries t') c hw)
+  refine ⟨h.1, fun sched s hex t hfin => ?_⟩
+  rw [h.2 sched s hex t hfin]
+  simp [seqTranscript, Locate.seqRun_locateThread]
+
+open GeosModel.Kernel in
+/-- … and that answer is the even–odd location of the point in the polygon's rings (all rings closed) -/
+theorem shared_built_locator_answers_evenOdd (rings : List (List Pt)) (hc : ∀ r ∈ rings, RayCount.Closed r) (q : Pt) :
+    Locate.locate rings q = Locate.evenOdd rings q := Locate.locate_eq_evenOdd rings hc q
+
+open GeosModel.Kernel in
+/-- … whatever the interval tree reports (any order, with or without segments that are not stabbed) -/
+theorem shared_built_locator_report_independent (rings : List (List Pt)) (p : Pt) (visited : List Locate.Seg)
+    (h : (visited.filter (Locate.stabs p)).Perm ((Locate.segsOf rings).filter (Locate.stabs p))) :
+    Locate.locateVisited p visited = Locate.locate rings p := Locate.locate_any_report rings p visited h
+
+/-- non-vacuity: the triangle (0,0),(10,0),(0,10): (1,1) interior, (8,8) exterior, (5,5) and (0,0) boundary -/
+example : Locate.locate [[⟨0,0⟩,⟨10,0⟩,⟨0,10⟩,⟨0,0⟩]] ⟨1,1⟩ = .interior ∧ Locate.locate [[⟨0,0⟩,⟨10,0⟩,⟨0,10⟩,⟨0,0⟩]] ⟨8,8⟩ = .exterior ∧
+    Locate.locate [[⟨0,0⟩,⟨10,0⟩,⟨0,10⟩,⟨0,0⟩]] ⟨5,5⟩ = .boundary ∧ Locate.locate [[⟨0,0⟩,⟨10,0⟩,⟨0,10⟩,⟨0,0⟩]] ⟨0,0⟩ = .boundary := by decide
+
+/-- the hypothesis "the call only reads" is needed.  A `locate` that memoises its last query in three ordinary members
+(cells 10 = hasLast, 11 = lastPt, 12 = lastLoc; thread 0 asks point 1 whose location is 0, thread 1 asks point 2 whose
+location is 2, twice; each event list is the path the call takes in the schedule below): thread 1's second call finds its
+own point in `lastPt` and thread 0's answer in `lastLoc`.  Alone, it receives 2. -/
+example :
+    let p : Prog := fun t =>
+      if t = 0 then [.read 10, .write 11 1, .write 12 0, .write 10 1, .out 0]
+      else if t = 1 then [.read 10, .write 11 2, .write 12 2, .write 10 1, .out 2, .read 10, .read 11, .read 12]
+      else []
+    (exec (St.init (fun _ => 0) p) [0, 0, 1, 1, 1, 1, 1, 0, 0, 0, 1, 1, 1]).map (·.out 1) = some [0, 2, 1, 2, 0] ∧
+    seqTranscript (fun _ => 0) (p 1) = [0, 2, 1, 2, 2] := by
+  constructor <;> rfl
 
 /-! ## (2) the generated inventory -/
 open GeosModel.Generated.Globals
@@ -233,5 +298,81 @@ theorem inventory_program_safe (mem0 : CellId → Val) (p : Prog)
 
 /-- non-vacuity of the inventory theorem: the inventory is not empty, contains safe and unsafe cells -/
 example : cells.length ≥ 40 ∧ (cells.filter (fun c => c.ty.safe)).length ≥ 10 ∧ (cells.filter (fun c => !c.ty.safe)).length ≥ 1 := by decide
+
+/-! ## (4) the members of objects that are shared after being built
+
+`Generated/SharedObjects.lean` (regenerated on every run by `translate/shared_objects_inventory.py`) lists every non-static
+data member of the classes that live inside a prepared geometry on the point-predicate, segment-intersection and distance
+paths (prepared geometry classes, point-in-area locators, `FastSegmentSetIntersectionFinder`,
+`MCIndexSegmentSetMutualIntersector`, `IndexedFacetDistance`, `FacetSequence`, `TemplateSTRtree`, `MonotoneChain`) with the
+member functions that write it.  `shared_objects_written_only_while_built`: every member is safe by its declared type, or
+every function that writes it is one of the functions **named below**, each with the reason why a write there does not
+happen after the object was built and shared — or is a recorded finding.  A new member written by a query method
+(a memo of the last answer, a statistics counter, a scratch buffer moved into the object), or a new write to an existing
+member from a function not named here, makes this theorem (a `decide`) fail. -/
+/-- why a write by the named function is tolerated -/
+inductive WriteWhy where
+  /-- the function runs only while the object is constructed / its index is built (called from constructors or from the
+      build step, which for `TemplateSTRtree::build` is additionally under the tree's mutex) -/
+  | buildPhase
+  /-- lazily creates the member on first use; the property excludes lazily indexed objects unless built before sharing, and
+      once the member exists the function takes the branch that does not write -/
+  | lazyBuildExcluded
+  /-- per-call state kept in the shared object: REAL unsynchronised writes on the unchanged tree (known finding
+      `scenario-fails/sharedprep`: concurrent `intersects(areal/lineal)` on one prepared polygon crashes; the same cells are
+      written — harmlessly, there being no segments — by `containsProperly(point)`, as ThreadSanitizer shows) -/
+  | knownRace
+  /-- member of a helper object created per call (iterators), never part of a shared object -/
+  | perCallObject
+deriving DecidableEq, Repr
+
+/-- member ↦ (functions that may write it, why) -/
+def allowedWriters : List (String × List String × WriteWhy) := [
+  ("BasicPreparedGeometry::baseGeom", ["setGeometry"], .buildPhase),
+  ("BasicPreparedGeometry::relate_ng", ["getRelateNG"], .lazyBuildExcluded),
+  ("FacetSequence::env", ["computeEnvelope"], .buildPhase),
+  ("IndexedPointInAreaLocator::index", ["buildIndex"], .lazyBuildExcluded),
+  ("IndexedPointInAreaLocator::IntervalIndexedGeometry::index", ["addLine", "init"], .buildPhase),
+  ("MCIndexSegmentSetMutualIntersector::index", ["process"], .lazyBuildExcluded),
+  ("MCIndexSegmentSetMutualIntersector::indexBuilt", ["process"], .lazyBuildExcluded),
+  ("MCIndexSegmentSetMutualIntersector::monoChains", ["addToMonoChains", "process"], .knownRace),
+  ("MCIndexSegmentSetMutualIntersector::nOverlaps", ["intersectChains", "process"], .knownRace),
+  ("MCIndexSegmentSetMutualIntersector::processCounter", ["process"], .knownRace),
+  ("SegmentSetMutualIntersector::segInt", ["setSegmentIntersector"], .knownRace),
+  ("MonotoneChain::env", ["getEnvelope"], .lazyBuildExcluded),
+  ("PreparedLineString::indexedDistance", ["getIndexedFacetDistance"], .lazyBuildExcluded),
+  ("PreparedLineString::segIntFinder", ["getIntersectionFinder"], .lazyBuildExcluded),
+  ("PreparedPolygon::indexedDistance", ["getIndexedFacetDistance"], .lazyBuildExcluded),
+  ("PreparedPolygon::indexedPtOnGeomLoc", ["getPointLocator"], .lazyBuildExcluded),
+  ("PreparedPolygon::ptOnGeomLoc", ["getPointLocator"], .lazyBuildExcluded),
+  ("PreparedPolygon::segIntFinder", ["getIntersectionFinder"], .lazyBuildExcluded),
+  ("TemplateSTRtreeImpl::nodeCapacity", ["operator="], .buildPhase),
+  ("TemplateSTRtreeImpl::nodes", ["build", "createBranchNode", "createLeafNode", "operator="], .buildPhase),
+  ("TemplateSTRtreeImpl::numItems", ["build", "operator="], .buildPhase),
+  ("TemplateSTRtreeImpl::root", ["build", "operator="], .buildPhase),
+  ("TemplateSTRtreeImpl::Iterator::m_iter", ["operator++", "skipDeleted"], .perCallObject)
+]
+
+def writersOK (m : Member) : Bool :=
+  m.ty.safe || m.writers.all (fun w => match allowedWriters.lookup m.name with
+    | some (ws, _) => ws.contains w
+    | none => false)
+
+/-- **shared_objects_written_only_while_built.**  Re-checked against the freshly generated member list on every run. -/
+theorem shared_objects_written_only_while_built :
+    ∀ m ∈ GeosModel.Generated.SharedObjects.members, writersOK m = true := by decide
+
+/-- the members with per-call state in a shared object — exactly these, by name (the known finding) -/
+theorem sharedObject_knownRaces_exact :
+    (allowedWriters.filter (fun e => e.2.2 == WriteWhy.knownRace)).map (·.1) =
+    ["MCIndexSegmentSetMutualIntersector::monoChains", "MCIndexSegmentSetMutualIntersector::nOverlaps",
+     "MCIndexSegmentSetMutualIntersector::processCounter", "SegmentSetMutualIntersector::segInt"] := by decide
+
+/-- non-vacuity: the list is not empty, contains members that are written by some function and members nobody writes;
+    a member written by a query method is rejected -/
+example : GeosModel.Generated.SharedObjects.members.length ≥ 30 ∧
+    (GeosModel.Generated.SharedObjects.members.filter (fun m => !m.writers.isEmpty)).length ≥ 10 ∧
+    writersOK { name := "IndexedPointInAreaLocator::lastLoc", ty := .plain, decl := "geom::Location lastLoc", loc := "-", writers := ["locate"] } = false ∧
+    writersOK { name := "IndexedPointInAreaLocator::index", ty := .plain, decl := "-", loc := "-", writers := ["buildIndex", "locate"] } = false := by decide
 
 end GeosModel.Conc
